@@ -90,13 +90,43 @@ Proof.
       * unfold remaining, pending. fold restc. rewrite R2, R3, R4, skipn_nil, Stop, !app_nil_r. reflexivity.
 Qed.
 
+(* the documented use of unget: the character char() has just returned is put back (a peek); the stream is then
+   where it was: same remaining characters, same position invariant *)
+Lemma unget_after_char tot s : src_ok s -> PInv tot s ->
+  match char s with
+  | (s1, Some c) => let '(s2, ok) := unget (Some c) s1 in
+                    ok = true /\ src_ok s2 /\ PInv tot s2 /\ remaining s2 = remaining s
+  | (_, None) => True
+  end.
+Proof.
+  intros Hs HP. pose proof (char_spec s Hs) as C. pose proof (char_PInv tot s Hs HP) as P.
+  unfold char in *.
+  destruct (if Nat.leb (length (chunk s)) (coff s) then rc s else (s, true)) as [s0 ok0].
+  destruct ok0; [|exact I].
+  destruct (nth_error (chunk s0) (coff s0)) as [c|] eqn:En; [|exact I].
+  destruct C as [C1 C2]. cbn [unget coff chunk]. rewrite En, N.eqb_refl.
+  split; [reflexivity|]. split; [exact C1|]. split.
+  - destruct P as [done [Ht [Hl [Hc Ho]]]]. exists done. cbn [chunk future buf src pl pc coff] in *.
+    repeat split; try assumption. lia.
+  - rewrite C2. unfold remaining, pending, future. cbn [chunk buf src coff]. 
+    assert (Hk : skipn (coff s0) (chunk s0) = c :: skipn (S (coff s0)) (chunk s0)).
+    { clear -En. revert En. generalize (coff s0) as k. induction (chunk s0) as [|x l IH]; intros [|k] En; try discriminate.
+      - inversion En; reflexivity.
+      - cbn [nth_error] in En. cbn [skipn]. apply IH. exact En. }
+    rewrite Hk. reflexivity.
+Qed.
+
 (* ---------- mixed sequences of char() and charsUntil() calls, up to the first EOF from char() ---------- *)
-Inductive sop := SChar | SUntil (inset : N -> bool).
+Inductive sop := SChar | SPeek | SUntil (inset : N -> bool).
 Fixpoint run_sops (fuel : nat) (ops : list sop) (s : st) : st * str :=
   match ops with
   | [] => (s, [])
   | SChar :: r => match char s with
                   | (s1, Some c) => let '(s2, d) := run_sops fuel r s1 in (s2, c :: d)
+                  | (_, None) => (s, [])
+                  end
+  | SPeek :: r => match char s with
+                  | (s1, Some c) => run_sops fuel r (fst (unget (Some c) s1))
                   | (_, None) => (s, [])
                   end
   | SUntil f :: r => let '(s1, out) := chars_until fuel f s [] in
@@ -112,12 +142,17 @@ Lemma run_sops_inv tot fuel : (length tot < fuel)%nat -> forall ops s pre s' d,
 Proof.
   intros Hfu. induction ops as [|o ops IH]; intros s pre s' d Hs HP Ht Hr; cbn [run_sops] in Hr.
   - injection Hr as <- <-. rewrite app_nil_r. auto.
-  - destruct o as [|f].
+  - destruct o as [| |f].
     + pose proof (char_spec s Hs) as C. pose proof (char_PInv tot s Hs HP) as P.
       destruct (char s) as [s1 [c|]].
       * destruct C as [C1 C2]. destruct (run_sops fuel ops s1) as [s2 d2] eqn:Er. injection Hr as <- <-.
         destruct (IH s1 (pre ++ [c]) s2 d2 C1 P) as [I1 [I2 I3]]; [rewrite Ht, C2, <- app_assoc; reflexivity | exact Er |].
         split; [exact I1|]. split; [exact I2|]. rewrite I3, <- !app_assoc. reflexivity.
+      * injection Hr as <- <-. rewrite app_nil_r. auto.
+    + pose proof (unget_after_char tot s Hs HP) as U.
+      destruct (char s) as [s1 [c|]].
+      * destruct (unget (Some c) s1) as [s2 ok]. destruct U as [_ [U1 [U2 U3]]]. cbn [fst] in Hr.
+        apply (IH s2 pre s' d U1 U2); [rewrite U3; exact Ht | exact Hr].
       * injection Hr as <- <-. rewrite app_nil_r. auto.
     + assert (Hf : (length (future s) < fuel)%nat).
       { pose proof (future_le_remaining s). apply (f_equal (@length N)) in Ht. rewrite app_length in Ht. lia. }
